@@ -275,8 +275,8 @@ def fallback (e : E) (compile : Nat → List S × Nat × Nat) (out : Nat) (v : V
   | .assign => ((compile n).1 ++ [S.copyTo out v (compile n).2.1 e.size], (compile n).2.2)
   | .iadd => ((compile n).1 ++ [S.addAt out v none (compile n).2.1 e.size], (compile n).2.2)
 
-theorem cwoOf_eq (gate : E → Bool) (e : E) (c : Comp) (out : Nat) (v : View) (mode : Mode) (n : Nat) :
-    cwoOf gate e c out v mode n = if gate e || e.isLeaf then fallback e c.compile out v mode n else c.self out v mode n := by
+theorem cwoOf_eq (gate : Gate) (e : E) (c : Comp) (out : Nat) (v : View) (mode : Mode) (n : Nat) :
+    cwoOf gate e c out v mode n = if gate.shared e || gate.early e || e.isLeaf then fallback e c.compile out v mode n else c.self out v mode n := by
   unfold cwoOf fallback
   split
   · cases mode <;> rfl
@@ -361,11 +361,11 @@ theorem fallback_spec {Γ : Ctx α} {e : E} {compile : Nat → List S × Nat × 
       · intro y hy hne
         rw [Store.set_other _ _ hne, hframe y hy]
 
-theorem cwoOf_spec {Γ : Ctx α} (gate : E → Bool) {e : E} {c : Comp} (hc : CompileSpec Γ e c.compile)
+theorem cwoOf_spec {Γ : Ctx α} (gate : Gate) {e : E} {c : Comp} (hc : CompileSpec Γ e c.compile)
     (hs : e.isLeaf = false → SelfSpec Γ e c.self) : SelfSpec Γ e (cwoOf gate e c) := by
   intro out v mode n hout hv
   rw [cwoOf_eq]
-  by_cases h : (gate e || e.isLeaf) = true
+  by_cases h : (gate.shared e || gate.early e || e.isLeaf) = true
   · rw [if_pos h]; exact fallback_spec hc out v mode n hout hv
   · rw [if_neg h]
     have : e.isLeaf = false := by
@@ -457,7 +457,7 @@ theorem hits_transp {Γ : Ctx α} {t : Nat} {v : View} {n : Nat} (ht : TagOK Γ 
     simp only [appV]
     exact hits_false_iff.1 h _ (ht j hj).1
 
-theorem build_spec (Γ : Ctx α) (gate : E → Bool) : ∀ e, WF Γ e →
+theorem build_spec (Γ : Ctx α) (gate : Gate) : ∀ e, WF Γ e →
     CompileSpec Γ e (build gate e).compile ∧ SelfSpec Γ e (cwoOf gate e (build gate e)) := by
   intro e
   induction e with
